@@ -8,14 +8,16 @@ def tu_check(tu):
     b = cg.cursor_exc(tu)
     c = cg.next_null(tu)
     d = cg.seek_validates(tu)
-    return dict(findings=a["findings"] + b["findings"] + c["findings"] + d["findings"],
-                stats={"index_uses": a["uses"] + d["n"], "cursor_const_stores": a["stores"],
+    from ..rules import lennonneg
+    ln = lennonneg.analyse_tu(tu)
+    return dict(findings=a["findings"] + b["findings"] + c["findings"] + d["findings"] + ln["findings"],
+                stats={"length_slots": ln["stats"]["length_slots"], "index_uses": a["uses"] + d["n"], "cursor_const_stores": a["stores"],
                        "raise_sites": b["n"], "next_loads": c["loads"]})
 
 
 def run(tier="quick", seed=0, use_cache=True):
     res = engine.Result("C15")
-    res.rules = ["INDEX-GUARD", "CURSOR-SENTINEL", "CURSOR-EXC", "NEXT-NULL", "PY-LIST-IDENTITY"]
+    res.rules = ["INDEX-GUARD", "CURSOR-SENTINEL", "CURSOR-EXC", "NEXT-NULL", "PY-LIST-IDENTITY", "LEN-NONNEG"]
     res.explanation = (
         "Memory safety of the C cursors against concurrent mutation, decided "
         "on all 22 translation units: every subscript of a bucket's keys/"
@@ -64,5 +66,10 @@ def run(tier="quick", seed=0, use_cache=True):
     res.explanation += (" INDEX-GUARD also requires that no object is released (Py_DECREF family: arbitrary code) "
                         "between the validating test and the use. PY-LIST-IDENTITY: the Python leaves rebind "
                         "self._keys / self._values only in whole-state operations - the lazy iterators capture "
-                        "the lists themselves.")
+                        "the lists themselves. LEN-NONNEG: every return of a function installed in a length slot "
+                        "(and of the repository functions it returns the result of) is an error constant or "
+                        "provably non-negative (constants, ->len fields, clamps, counters); accepted idiom: the "
+                        "single-leaf range of a lazy sequence.")
+    res.floor("length slot functions (OO)", out["OO"]["stats"]["length_slots"], 3)
+    res.count("LEN-NONNEG", sum(r["stats"]["length_slots"] for r in out.values()))
     return res
